@@ -586,6 +586,12 @@ def fam_utl(rng, n):
         tot = rng.below(65536)
         c.add("UGEN F %d %d %d %d %s %s %d 3" % (5 + ll + len(pdu), fid, tot, pt, label, hx(pdu), 7 + ll + len(pdu) + slack))
         c.add("UPARSE F %s" % hx(build_first(fid, tot, pt, label, pdu) + rng.bytes(slack)))
+        # what the decapsulator accepts: the same bytes (built independently) given to a receiver with room for the PDU
+        if label not in ("R", ZERO6) and not bad:
+            c.add("DNEW 1 %d simple" % len(pdu), "DPROV %d" % (len(pdu) + 1), "DPROV %d" % (len(pdu) + 2))
+            c.add("DECAP %s" % hx(build_complete(pt, label, pdu)))
+            tot2 = len(pdu) + rng.choice([1, 2, 2 + ll, 3 + ll, rng.range(1, 40)])
+            c.add("DECAP %s" % hx(build_first(fid, min(tot2, 65535), pt, label, pdu)))
         c.add("UGEN I %d %d %s %d 3" % (1 + len(pdu), fid, hx(pdu), 3 + len(pdu) + slack))
         c.add("UPARSE I %s" % hx(build_inter(fid, pdu) + rng.bytes(slack)))
         crc = rng.below(1 << 32)
